@@ -36,6 +36,19 @@ void h_sha512_transf(void) {
     V_COVER(c->h[0] != in.c.h[0]); V_COVER(in.blk[127] == 0x80 && in.c.h[7] == 0x5be0cd19137e2179ull);
 }
 
+/* one-round lemma (see spec/spec_sha.h): for ALL word values the re-ordered sum and the alternative Boolean forms
+ * equal the FIPS 180-4 text (loop-free, full domain) */
+typedef struct { uint32_t a, b, c, d, e, K, W; } IN_rl;
+V_INPUT(IN_rl)
+void h_sha1_round_lemma(void) {
+    IN_rl in = nondet_IN_rl();
+    V_ASSERT(SPEC_CH_ALT(in.b, in.c, in.d) == SPEC_CH(in.b, in.c, in.d), "C18.sha1_round_lemma.ch_alternative_form");
+    V_ASSERT(SPEC_MAJ_ALT(in.b, in.c, in.d) == SPEC_MAJ(in.b, in.c, in.d), "C18.sha1_round_lemma.maj_alternative_form");
+    uint32_t f = in.d;   /* any value of f_t */
+    V_ASSERT(SPEC_SHA1_T_ORD(in.a, f, in.e, in.K, in.W) == SPEC_SHA1_T_FIPS(in.a, f, in.e, in.K, in.W), "C18.sha1_round_lemma.sum_order");
+    V_COVER(in.a == 1 && in.K == 0x5a827999u);
+}
+
 #ifdef VERIF_NATIVE
 #include "replay_in.h"
 #endif
